@@ -18,7 +18,8 @@ class WalkError(Exception):
 
 
 class Leaf:
-    __slots__ = ('obj', 'keys', 'values', 'next', 'depth', 'lo', 'hi', 'embedded')
+    __slots__ = ('obj', 'keys', 'values', 'next', 'depth', 'lo', 'hi', 'embedded', 'parent',
+                 'parent_is_root', 'parent_nkids')
 
 
 class Walk:
@@ -104,6 +105,7 @@ def walk(tree, is_map, max_leaf=None, max_internal=None, check=True):
             lf.obj = getattr(node, '_firstbucket', None)
             lf.keys, lf.values, lf.next = crack_leaf(None, is_map, inner[0])
             lf.depth, lf.lo, lf.hi, lf.embedded = depth + 1, lo, hi, True
+            lf.parent, lf.parent_is_root, lf.parent_nkids = node, is_root, 1
             w.leaves.append(lf)
             w.interior.append((node, depth, 1))
             if is_root:
@@ -160,6 +162,7 @@ def walk(tree, is_map, max_leaf=None, max_internal=None, check=True):
                 lf.obj = kid
                 lf.keys, lf.values, lf.next = crack_leaf(kid, is_map)
                 lf.depth, lf.lo, lf.hi, lf.embedded = depth + 1, klo, khi, False
+                lf.parent, lf.parent_is_root, lf.parent_nkids = node, is_root, len(kids)
                 w.leaves.append(lf)
                 w.height = max(w.height, depth + 1)
                 shapes.append(len(lf.keys))
@@ -255,3 +258,40 @@ def skeleton(obj, is_map, is_tree):
         return ('node', tuple(out))
 
     return rec(obj)
+
+
+def f16_pending(w):
+    """True when some non-root interior node has exactly one leaf child that has no oid yet:
+    its state embeds the leaf while the preceding leaf's successor link stores it as an object
+    (open finding F16)."""
+    for lf in w.leaves:
+        if lf.parent_nkids == 1 and not lf.parent_is_root:
+            if getattr(lf.obj, '_p_oid', None) is None:
+                return True
+    return False
+
+
+def descent_path(tree, key):
+    """Interior nodes (tree-type objects, root first) that a search for ``key`` descends
+    through, computed from the separators in the documented state layout."""
+    tt = type(tree)
+    path = []
+    node = tree
+    while True:
+        st = node.__getstate__()
+        path.append(node)
+        if st is None or len(st) == 1:
+            return path
+        data = st[0]
+        kids = data[0::2]
+        seps = data[1::2]
+        i = 0
+        for j, s in enumerate(seps):
+            if sortkey(s) <= sortkey(key):
+                i = j + 1
+            else:
+                break
+        child = kids[i]
+        if type(child) is not tt:
+            return path
+        node = child
